@@ -150,6 +150,12 @@ def apply_model(sym, n, f, vals, mut_idx, st):
                                 out.append((s3, (VAL, o if r else NONE)))
                 elif last == "is_some_and":
                     out += sym.apply(vals[1], [pay], s, n) if is_some else [(s, (VAL, FALSE))]
+                elif last == "zip":
+                    if not is_some:
+                        out.append((s, (VAL, NONE)))
+                    else:
+                        for s2, other_some in fork_is(sym, s, vals[1], "Some"):
+                            out.append((s2, (VAL, some(("tuple", (pay, mk_payload(vals[1], "Some", "0")))) if other_some else NONE)))
                 else:
                     return None
             return out
